@@ -26,7 +26,7 @@ RULE = (
     "direct get_samples_for_epoch queries, epoch attribute set by hand, an abandoned iterator, two interleaved "
     "iterators, an unset seed. quick: class-directed random cases (N 0..40, W 1..6); thorough: the complete grid "
     "N 0..40 x W 1..6 x 4 modes x {random with seeds 0, 12345, 2^31-1; sequential} x every (e0,c) with e0+c<=4, "
-    "c<=3, plus random cases up to N=300, W=8 and real gloo groups. A case is distinct by the hash of its "
+    "c<=3, plus random cases up to N=200, W=8 and real gloo groups. A case is distinct by the hash of its "
     "concrete parameters and non-trivial if N>=2 and (W>=2 or the sampler is random)"
 )
 ASSUMPTIONS = [
@@ -45,7 +45,7 @@ CLASSES = [
 ]
 BUDGET = {
     "quick": dict(cases=200, shards=4, timeout=1200),
-    "thorough": dict(cases=1500, shards=16, timeout=3000, time=420),
+    "thorough": dict(cases=500, shards=16, timeout=3000, time=420),
 }
 GRID_CASES = 41 * 6 * 4 * 4
 FLOORS = {
@@ -64,14 +64,16 @@ FLOORS = {
         "distinct": 250,
     },
     "thorough": {
-        "events": {"sampler_ctor": 1500000, "rank_visit": 40000, "assert:partition-cover": 15000,
-                   "assert:raise-indivisible": 4000, "assert:drop-equal-share": 4000},
-        "classes": dict({c: 500 for c in CLASSES}, grid=GRID_CASES),
-        "sets": {"grid_points": 41 * 6 * 4 * 2},
-        "distinct": 15000,
+        "events": {"sampler_ctor": 450000, "rank_visit": 25000, "assert:partition-cover": 12000,
+                   "assert:raise-indivisible": 4000, "assert:drop-equal-share": 8000,
+                   "assert:len-eq-yielded": 600000, "assert:resume-eq-baseline": 500000},
+        "classes": dict({c: 150 for c in CLASSES}, grid=GRID_CASES),
+        "sets": {"grid_points": 41 * 6 * 4 * 2, "orders": 4000},
+        "distinct": 5000,
     },
 }
-EXHAUSTIVE = {"thorough": True}
+# the (N<=40, W<=6) grid is enumerated completely, the property (all N, all W) is not
+EXHAUSTIVE = {"thorough": False}
 ALL_STARTS = [[e0, c] for e0 in range(5) for c in range(0, 4) if e0 + c <= 4]
 
 
@@ -100,8 +102,8 @@ def _case(cls, kind, N, W, mode, seed, rng=None, group=True, E=5, starts=None, s
 
 def generate(rng, tier, i):
     cls = CLASSES[i % len(CLASSES)]
-    big = tier == "thorough" and rng.random() < 0.5
-    maxN, maxW = (300, 8) if big else (40, 6)
+    big = tier == "thorough" and rng.random() < 0.3
+    maxN, maxW = (200, 8) if big else (40, 6)
     kind = rng.choice(["random", "sequential"])
     mode = rng.choice(MODES)
     W = rng.randint(1, maxW)
